@@ -90,7 +90,7 @@ def _canon(s):
                     a, b = _split_top(t, ' for ')
                     out = _strip_trailing_path(out)
                     if b is not None:
-                        out += '<' + _canon(b) + ' as ' + _canon(a) + '>'
+                        out += '<' + _canon(b) + ' as ' + _canon_trait(a) + '>'
                     else:
                         out += _canon(a)
                 else:
@@ -100,7 +100,7 @@ def _canon(s):
             else:
                 a, b = _split_top(inner, ' as ')
                 if b is not None:
-                    out += '<' + _canon(a) + ' as ' + _canon(b) + '>'
+                    out += '<' + _canon(a) + ' as ' + _canon_trait(b) + '>'
                 else:
                     out += '<' + _canon(inner) + '>'
             i = j + 1
@@ -108,6 +108,40 @@ def _canon(s):
             out += c
             i += 1
     return out
+
+
+_TYPARAM = re.compile(r"^('?[A-Za-z_][A-Za-z0-9_]*)$")
+
+
+def _canon_trait(t):
+    """canonical trait path that *keeps* concrete generic arguments (`From<WordField>`), because distinct
+    impls of one generic trait for one type differ only there; arguments that are bare type parameters or
+    lifetimes (`<SE>`, `<'a, T>`) are dropped."""
+    t = t.strip()
+    k = t.find('<')
+    if k < 0 or not t.endswith('>'):
+        return _canon(t)
+    head, args = t[:k], t[k + 1:-1]
+    parts = []
+    depth = 0
+    cur = ""
+    for ch in args:
+        if ch in '<([':
+            depth += 1
+        elif ch in ')]' or ch == '>':
+            depth -= 1
+        if ch == ',' and depth == 0:
+            parts.append(cur.strip())
+            cur = ""
+        else:
+            cur += ch
+    if cur.strip():
+        parts.append(cur.strip())
+    keep = [p for p in parts if not (_TYPARAM.match(p) and ("::" not in p) and (p[:1].isupper() or p.startswith("'")))]
+    if not keep or len(keep) != len(parts):
+        if not keep:
+            return _canon(head)
+    return _canon(head) + '<' + ", ".join(_canon(p) for p in parts) + '>'
 
 
 class Place:
